@@ -195,7 +195,14 @@ def runStep (S : Sc α) (cy : Bool) (env : Array (Option (Arr α))) (j : Json) :
     let kind ← getStr (← field j "kind")
     let d ← specDense S kind j ins
     let inj ← optField j "inject" (arrOfJson S.sc)
-    return { val := inj, json := [("dense", denseToJson S.sc d)] }
+    -- side effects of the (unmodelled) call on the cached claim of its operands: an operand observed to be
+    -- lexsorted afterwards is lexsorted in the model as well (e.g. `a == b` sorts `b` in the compiled kernel)
+    let seen ← optField j "ins_sorted" (listOf (optOf getBool))
+    let upd := match seen with
+      | none => []
+      | some fl => (List.zip inIds (List.zip ins fl)).filterMap (fun (x : Nat × Arr α × Option Bool) =>
+          if x.2.2 == some true && !x.2.1.qdataSorted then some (x.1, x.2.1.isortQdata) else none)
+    return { val := inj, json := [("dense", denseToJson S.sc d)], upd }
   | _ => throw s!"unknown op {op}"
 
 def runCase (S : Sc α) (j : Json) : Except String Json := do
